@@ -43,6 +43,8 @@ def module_sets(tier, seed):
     for m in ("Sim1", "Sim2", "Sim3", "Sim4"): sets.append(["verif:corpus/%s.asn1" % m])
     sets.append(["verif:corpus/ImpA.asn1", "verif:corpus/ImpB.asn1"])
     sets.append(["verif:corpus/ParA.asn1", "verif:corpus/ParB.asn1"])       # parameterized types in the second file
+    sets.append(["verif:corpus/CoA.asn1", "verif:corpus/CoB.asn1"])         # COMPONENTS OF, values and defaults across modules
+    sets.append(["verif:corpus/CoC.asn1", "verif:corpus/CoD.asn1"])   # ... into a module with different default tagging
     sets.append(["verif:corpus/Sim1.asn1", "verif:corpus/Sim2.asn1", "verif:corpus/Sim3.asn1"])
     have = set(os.listdir(EXDIR)) if EXDIR else set()
     if {"rfc3280-PKIX1Explicit88.asn1", "rfc3280-PKIX1Implicit88.asn1"} <= have:
@@ -112,6 +114,10 @@ def classify(fname):
     return ("type-header" if fname.endswith(".h") else "type-source") if not os.path.exists(os.path.join(build.REPO, "skeletons", fname)) else "skeleton-copy"
 
 
+def modtag(modules):
+    return "+".join(os.path.splitext(os.path.basename(m))[0] for m in modules)
+
+
 def check_case(shim, plain, wdir, tag, case):
     """case: dict(kind, modules, flags, seeds|perms...). Returns (violated, sig, detail, nruns, stats)."""
     kind, modules, flags = case["kind"], case["modules"], case["flags"]
@@ -120,13 +126,13 @@ def check_case(shim, plain, wdir, tag, case):
         runs = [run_compiler(shim, wdir, "%s-e%d" % (tag, s), modules, flags, s, list(range(n))) for s in case["envseeds"]]
         for r in runs[1:]:
             f, detail = first_diff(runs[0], r, False)
-            if f: return True, "C12/envdiff/" + classify(f), detail + " between environment seeds %s (modules %s, flags %s)" % (case["envseeds"], modules, flags), len(runs), runs
+            if f: return True, "C12/envdiff/" + classify(f) + "/" + f + "@" + modtag(modules), detail + " between environment seeds %s (modules %s, flags %s)" % (case["envseeds"], modules, flags), len(runs), runs
         return False, "", "", len(runs), runs
     if kind == "permdiff":
         runs = [run_compiler(shim, wdir, "%s-p%d" % (tag, i), modules, flags, case["envseeds"][0], list(perm)) for i, perm in enumerate(case["perms"])]
         for r in runs[1:]:
             f, detail = first_diff(runs[0], r, True)
-            if f: return True, "C12/permdiff/" + classify(f), detail + " between argument orders %s (modules %s)" % (case["perms"], modules), len(runs), runs
+            if f: return True, "C12/permdiff/" + classify(f) + "/" + f + "@" + modtag(modules), detail + " between argument orders %s (modules %s)" % (case["perms"], modules), len(runs), runs
         return False, "", "", len(runs), runs
     if kind in ("fixpoint", "samecode"):
         src = resolve(modules[0]); base = os.path.basename(src)
@@ -137,9 +143,9 @@ def check_case(shim, plain, wdir, tag, case):
         if p1.returncode != 0: return False, "", "skip: -E rejected the original", 1, []
         open(os.path.join(d, "b", base), "wb").write(p1.stdout)
         p2 = subprocess.run([plain, "-E", base], cwd=os.path.join(d, "b"), stdout=subprocess.PIPE, stderr=subprocess.PIPE)
-        if p2.returncode != 0: return True, "C12/fixpoint/reparse-rejected", "asn1c -E output of %s is not accepted by asn1c: %s" % (modules[0], p2.stderr[-300:].decode(errors="replace")), 2, []
+        if p2.returncode != 0: return True, "C12/fixpoint/reparse-rejected/" + modtag(modules), "asn1c -E output of %s is not accepted by asn1c: %s" % (modules[0], p2.stderr[-300:].decode(errors="replace")), 2, []
         if p1.stdout != p2.stdout:
-            return True, "C12/fixpoint/text-differs", "printing %s twice does not reach a fixpoint" % modules[0], 2, []
+            return True, "C12/fixpoint/text-differs/" + modtag(modules), "printing %s twice does not reach a fixpoint" % modules[0], 2, []
         if kind == "samecode":
             outs = []
             for sub in ("a", "b"):
@@ -147,7 +153,7 @@ def check_case(shim, plain, wdir, tag, case):
                 outs.append(dict(rc=p.returncode, log="", tree=tree_hash(os.path.join(d, sub, "out"))))
             f, detail = first_diff(outs[0], outs[1], True)
             shutil.rmtree(d, ignore_errors=True)
-            if f: return True, "C12/samecode/" + classify(f), "code generated from the printed text of %s differs: %s" % (modules[0], detail), 4, []
+            if f: return True, "C12/samecode/" + classify(f) + "/" + f + "@" + modtag(modules), "code generated from the printed text of %s differs: %s" % (modules[0], detail), 4, []
             return False, "", "", 4, []
         shutil.rmtree(d, ignore_errors=True)
         return False, "", "", 2, []
